@@ -92,8 +92,10 @@ CHECKS = {
             "dispatches on the configured strategy; every binder registers the queue exactly once (finding F1, fixed).",
             "RI_Manager + quantified postconditions; std slices bodies inlined"),
     "C16": ("Per-function proof that every store to job.status goes through changeStatus / Close with old(status) <= new(status) "
-            "in the order created < queued < processing < finished < closed, and that Close ends at closed. Holds per call (including the 14 Add/AddAll paths, which must store Queued before "
-            "signalling the dispatcher); concurrent status writers are not composed (finding class G1/G2 of DESIGN.md is not decided).",
+            "in the order created < queued < processing < finished < closed, and that Close ends at closed. The 12 in-memory Add/AddAll paths store Queued BEFORE the job is published with Enqueue "
+            "(queued-before-publish; finding G1 - a late Store(queued) rewinding a job that had already run - fixed), Close stores Closed before it releases Wait "
+            "(closed-before-release, also in the three group Close functions), Wait returns only through the wait group. Still per call: a handle Close() racing the "
+            "dispatcher between its IsClosed() check and its changeStatus(processing) (finding class G2 of DESIGN.md) is not decided.",
             "monotonicity postconditions on all writers of job.status"),
     "C17": ("Per-function proof that Queue/PriorityQueue Len equals the size of the abstract view (never negative, no wrap), "
             "NumPending sums Len over registered queues, metrics counters only increase by one per event and Reset zeroes them, Submitted counts exactly the accepted items of a batch, "
